@@ -495,12 +495,36 @@ func R19(group string) Rule {
 				c.Unknown("R19", "cam/apply-call", fn.Pos(), "expected one applyMutations call, found %d", len(acalls))
 				return
 			}
-			cond, okPol, found := mutationChoice(P, acalls[0].Call.Args[2])
+			// the list handed to the applier, as seen from the RPC (it may be a helper's parameter)
+			listV := acalls[0].Call.Args[2]
+			for hop := 0; hop < 4; hop++ {
+				pa, isParam := core.Resolve(listV).(*ssa.Parameter)
+				if !isParam {
+					break
+				}
+				var args []ssa.Value
+				for _, r := range P.Refs(pa.Parent()) {
+					if within[r.Instr.Parent()] {
+						if t := core.Translate(pa, pa.Parent(), r); t != nil {
+							args = append(args, t)
+						}
+					}
+				}
+				if len(args) != 1 {
+					break
+				}
+				listV = args[0]
+			}
+			cond, okPol, found := mutationChoice(P, listV)
 			if !found {
 				c.Bad("R19", "cam/selector", acalls[0].Pos(), "the applied mutation list is not a choice between true_mutations and false_mutations")
 				return
 			}
-			okSel := cond != nil && selStore.Parent() == acalls[0].Parent() && core.Resolve(cond) == core.Resolve(sel)
+			sameFn := false
+			if ci, isIn := core.Resolve(listV).(ssa.Instruction); isIn {
+				sameFn = ci.Parent() == selStore.Parent()
+			}
+			okSel := cond != nil && sameFn && core.Resolve(cond) == core.Resolve(sel)
 			c.Check(okSel, "R19", "cam/selector-identity", selStore.Pos(), "the value reported as predicate_matched is the very value that selects the branch", "predicate_matched and the branch selector are different values: the response can report one branch while the other is applied")
 			c.Check(okPol, "R19", "cam/selector-polarity", acalls[0].Pos(), "true_mutations is chosen on the true edge, false_mutations otherwise", "the branch lists are swapped or something other than the request's two lists is applied")
 		default:
